@@ -227,12 +227,11 @@ func (t *Array) Process(ctx *ProcessContext, di *DataIndexer, accessor Accessor)
 	}
 
 	// Skip redundant bits post decoding.
-	if t.extensible && !ctx.isEncode {
-		// Skip redundant bits.
-		ito := i + int(ahead)*t.capacity
-		if ito >= ctx.i {
-			ctx.i = ito
-		}
+	if t.extensible && !ctx.isEncode && int(ahead) > t.capacity {
+		// Skip redundant bits: the opponent has (ahead - capacity) more
+		// elements, each occupies the same number of bits as the ones just
+		// decoded.
+		ctx.i += (int(ahead) - t.capacity) * ((ctx.i - i - 16) / t.capacity)
 	}
 }
 
